@@ -60,7 +60,16 @@ def make(R, kind, n, cache):
     return rs
 
 
+BUDGET = [None]       # the StepBudget in force for single-threaded operations (reset before each one)
+
+
 def outcome(f):
+    if BUDGET[0] is not None:
+        BUDGET[0].reset()
+    return _outcome(f)
+
+
+def _outcome(f):
     try:
         return ('ok', f())
     except StopIteration:
@@ -69,6 +78,8 @@ def outcome(f):
         return ('IndexError',)
     except locks.SelfDeadlock as e:
         return ('DEADLOCK', str(e))
+    except S.Livelock as e:
+        return ('LIVELOCK', str(e))
     except BaseException as e:
         return ('exc', '%s: %s' % (type(e).__name__, e))
 
@@ -209,9 +220,16 @@ def hash_list(x):
 # ---------------------------------------------------------------------------------------------
 
 def switch_codes(R):
-    rb = R.rrulebase
-    return [rb._iter_cached.__code__, rb.__iter__.__code__, rb.__getitem__.__code__, rb.count.__code__, rb.__contains__.__code__,
-            rb.between.__code__, R.rrule._iter.__code__, R.rruleset._iter.__code__, R.rruleset._genitem.__next__.__code__]
+    # every method of the recurrence classes that exists in this tree (private helpers may be renamed, inlined or split)
+    out = []
+    for cls, names in ((R.rrulebase, ('_iter_cached', '__iter__', '__getitem__', 'count', '__contains__', 'between', 'before', 'after', 'xafter')),
+                       (R.rrule, ('_iter',)), (R.rruleset, ('_iter',)), (getattr(R.rruleset, '_genitem', None), ('__next__',))):
+        for n in names:
+            f = getattr(cls, n, None) if cls is not None else None
+            c = getattr(f, '__code__', None)
+            if c is not None and c not in out:
+                out.append(c)
+    return out
 
 
 def worker_ops(rng, L, nworkers):
@@ -379,7 +397,10 @@ def run(ctx):
     rng = ctx.rng
     codes = switch_codes(R)
     sigs = set()
-    # (i) systematic single-thread sweep on every length (sharded by length)
+    # (i) systematic single-thread sweep on every length (sharded by length); one operation = at most 200 000 source lines
+    budget = S.StepBudget(codes, 200000)
+    budget.__enter__()
+    BUDGET[0] = budget
     for idx, n in enumerate(LENGTHS):
         for kind in ('rule', 'set'):
             if (idx + (0 if kind == 'rule' else 1)) % ctx.nshards != ctx.shard:
@@ -393,6 +414,8 @@ def run(ctx):
             ctx.count('nested_sweeps')
     for _ in range(150 if ctx.tier == 'quick' else 2500):
         random_single(ctx, R, rng, rng.choice(['rule', 'set', 'rule-until', 'nested']), rng.choice(LENGTHS))
+    BUDGET[0] = None
+    budget.__exit__()
     # (ii) scheduled threads
     sys.setswitchinterval(0.005)
     rounds = 0
